@@ -1,6 +1,6 @@
 (** C03 - unprotected or forged messages cannot affect an IKE_SA that has keys (property theorems only). *)
 From Coq Require Import ZArith Bool List.
-From IkeSa Require Import Gen.IkeFacts Shell ShellProofs.
+From IkeSa Require Import Gen.IkeFacts Shell ShellProofs ShellTrace.
 Open Scope Z_scope.
 
 (** For every IkeSa value [s] that has keys (any state, either role, any counters, any handler behaviour [P]) and
@@ -16,3 +16,18 @@ Theorem C03_no_effect : forall (P : iface) (s : sa P) (m : pmsg (B P)) (now : Z)
    h_id (p_hdr m) = peer_id P s - 1).
 Proof. exact unauthenticated_no_effect. Qed.
 Print Assumptions C03_no_effect.
+
+(** Over EVERY history (messages, triggers, timer passes, in any order): the IKE_SA ends in exactly the state it
+    reaches when every message that failed the integrity check (while keys exist) is struck out of the history.
+    [forged] / [run_without_forged] are defined in ShellTrace.v. *)
+Theorem C03_forged_messages_invisible_in_every_history : forall (P : iface) (es : list (sevent P)) (s : sa P),
+  fold_left (sstep P) es s = run_without_forged P es s.
+Proof. exact forged_messages_invisible. Qed.
+Print Assumptions C03_forged_messages_invisible_in_every_history.
+
+(** and all such a message can obtain is nothing, or a copy of the stored response *)
+Theorem C03_forged_message_output : forall (P : iface) (s : sa P) (e : sevent P),
+  forged P s e = true ->
+  snd (sstep_out P s e) = nil \/ exists d, last_resp P s = Some d /\ snd (sstep_out P s e) = cons d nil.
+Proof. exact forged_output. Qed.
+Print Assumptions C03_forged_message_output.
